@@ -21,7 +21,7 @@ Plan of the proof (indices disappear early; Lemmas/Txt.lean restates the array p
 Also: `parseShort_no_tiers` (IndexError), `parseShort_keyword_counterexample` (label `IntervalTier`: ValueError),
 `segOK_row_iff` (exactly which labels `NoKw` excludes), `sample_read_back` + `#guard`s (non-vacuity).
 `parseShort_emit_strip` is the theorem WITHOUT the strip-invariance hypothesis: every name and label comes back stripped
-(`word_written_strip`, `readBlock_written_strip`); `parseShort_name_blank`: a tier named `" a "` comes back as `"a"`.
+(`word_written_strip`, `readBlock_written_strip`); `parseShort_name_blank_regression`: a tier named `" a "` comes back as `" a "` (names are read verbatim since fix A31).
 -/
 
 namespace C01
